@@ -298,8 +298,25 @@ func classify(info *types.Info, n ast.Node) (opKind, bool) {
 			}
 		}
 		if sel, ok := x.Fun.(*ast.SelectorExpr); ok {
-			if pkgOf(info, sel.X) == "sync/atomic" {
+			switch pkgOf(info, sel.X) {
+			case "sync/atomic":
 				return opKind{true, false, "atomic"}, true
+			case "os", "io/ioutil":
+				// file-system calls are system calls: the real scheduler may
+				// well switch there, so they are scheduling points too
+				if ioFuncs[sel.Sel.Name] {
+					return opKind{true, false, "io"}, true
+				}
+			case "io":
+				switch sel.Sel.Name {
+				case "ReadFull", "ReadAtLeast", "Copy", "CopyN", "WriteString", "ReadAll":
+					return opKind{true, false, "io"}, true
+				}
+			}
+			if ioMethods[sel.Sel.Name] {
+				if tv, ok := info.Types[sel.X]; ok && tv.Type != nil && isIOType(tv.Type) {
+					return opKind{true, false, "io"}, true
+				}
 			}
 			if tv, ok := info.Types[sel.X]; ok && tv.Type != nil {
 				switch {
@@ -324,6 +341,32 @@ func classify(info *types.Info, n ast.Node) (opKind, bool) {
 		}
 	}
 	return opKind{}, false
+}
+
+var ioFuncs = map[string]bool{"OpenFile": true, "Open": true, "Create": true, "ReadFile": true, "WriteFile": true, "MkdirAll": true, "Mkdir": true,
+	"Remove": true, "RemoveAll": true, "Rename": true, "ReadDir": true, "Truncate": true}
+
+var ioMethods = map[string]bool{"Write": true, "WriteString": true, "Close": true, "Sync": true, "Read": true, "ReadAt": true, "WriteAt": true, "Flush": true}
+
+// isIOType: *os.File, bufio types, or an interface declared in package io.
+func isIOType(t types.Type) bool {
+	if p, ok := t.(*types.Pointer); ok {
+		t = p.Elem()
+	}
+	n, ok := t.(*types.Named)
+	if !ok || n.Obj() == nil || n.Obj().Pkg() == nil {
+		return false
+	}
+	switch n.Obj().Pkg().Path() {
+	case "os":
+		return n.Obj().Name() == "File"
+	case "bufio":
+		return true
+	case "io":
+		_, isIface := n.Underlying().(*types.Interface)
+		return isIface
+	}
+	return false
 }
 
 func isAtomicType(t types.Type) bool {
